@@ -242,6 +242,8 @@ fn parse_case(line: &str) -> Option<Case> {
     let ops: Vec<Term> = body[2].tagged("ops")?.to_vec();
     // validate ops up-front so that an ill-formed case is (bad-case) on both sides
     let mut fams = Vec::new();
+    // one Arc<Source> belongs to one (session, family): reject a source used with two families
+    let mut src_fam: HashMap<u64, Fam> = HashMap::new();
     let note = |f: Fam, fams: &mut Vec<Fam>| {
         if !fams.contains(&f) {
             fams.push(f)
@@ -260,6 +262,9 @@ fn parse_case(line: &str) -> Option<Case> {
                     return None;
                 }
                 note(Fam::parse(&a[1])?, &mut fams);
+                if *src_fam.entry(a[0].as_u64()?).or_insert(Fam::parse(&a[1])?) != Fam::parse(&a[1])? {
+                    return None;
+                }
                 Net::parse(&a[2])?;
                 u32v(&a[3])?;
                 if let Some(k) = opt_nat(&a[4])? {
@@ -281,6 +286,9 @@ fn parse_case(line: &str) -> Option<Case> {
                     return None;
                 }
                 note(Fam::parse(&a[1])?, &mut fams);
+                if *src_fam.entry(a[0].as_u64()?).or_insert(Fam::parse(&a[1])?) != Fam::parse(&a[1])? {
+                    return None;
+                }
                 Net::parse(&a[2])?;
                 u32v(&a[3])?;
             }
@@ -295,10 +303,14 @@ fn parse_case(line: &str) -> Option<Case> {
                 if a.len() != 3 {
                     return None;
                 }
-                small(&a[0])?;
+                let addr = small(&a[0])?;
                 note(Fam::parse(&a[1])?, &mut fams);
                 if let Some(s) = opt_nat(&a[2])? {
                     if s as usize >= srcs.len() {
+                        return None;
+                    }
+                    // a purge of a peer may only be handed the counter of a session of that peer
+                    if srcs[s as usize].remote_addr != peer_addr(addr) {
                         return None;
                     }
                 }
@@ -491,7 +503,7 @@ impl World {
 
     fn dump(&self) -> Vec<Term> {
         let mut out = Vec::new();
-        for &f in &self.case.fams {
+        for f in [Fam::V4, Fam::Ev] {
             // all paths, ranked, including filtered ones
             let mut dests: Vec<(Net, Term)> = self
                 .table
